@@ -192,6 +192,10 @@ func (s *Sys) ReqNS(ns *namespace.Namespace, token string, op logical.Operation,
 	return s.Core.HandleRequest(ctx, req)
 }
 
+func rootCtx() context.Context {
+	return namespace.ContextWithNamespace(context.Background(), namespace.RootNamespace)
+}
+
 // OK reports whether a request succeeded (no Go error, no error response).
 func OK(resp *logical.Response, err error) bool {
 	return err == nil && (resp == nil || !resp.IsError())
